@@ -50,6 +50,9 @@ RULE = ("exhaustive: every AST with <= N nodes (quick N=5, thorough N=6) over at
         "(pattern text -> parse -> compile; same AST built with ppci's constructors -> compile) x every string "
         "over {a,b,c} up to length 6 and over {a,b,c,.} up to length 4 (1313 strings): DFA acceptance and the "
         "scan() token split; token-set scanners (2-3 expressions) via make_scanner and via ExpressionVector; "
+        "regrouping pairs: one flat sequence of 2-4 leaves with binary operators and postfix operators is grouped in "
+        "two different ways ((xy)* / x(y*), (x|y)z / x|(yz), (xy)? / x(y?) ...) and the two variants are combined "
+        "under alternation, concatenation and repetition and as token sets, all 1313 strings; "
         "random expressions of 6..14 nodes with escaped metacharacters, multi-item classes and redundant groups "
         "x strings sampled from the expression's automaton, their mutations and random strings.  Non-trivial = "
         "the expression has an operator and the string set contains accepted and rejected strings; distinct by "
@@ -94,6 +97,8 @@ def plan(tier, seed, avoid):
     specs += [{"part": "tokens", "n": 400 if tier == "quick" else 1500, "shard": i} for i in range(nt)]
     nr = 8 if tier == "quick" else 16
     specs += [{"part": "random", "n": 1500 if tier == "quick" else 3200, "shard": i} for i in range(nr)]
+    ng = 8 if tier == "quick" else 16
+    specs += [{"part": "regroup", "n": 100 if tier == "quick" else 600, "shard": i} for i in range(ng)]
     return specs
 
 
@@ -107,6 +112,9 @@ def floors(tier):
             "observed.tokens.scanners": 1000, "observed.tokens.texts": 150000,
             "observed.tokens.texts_with_two_token_kinds": 30000,
             "observed.tokens.route_parse": 300, "observed.tokens.route_direct": 500,
+            "observed.regroup.pairs": 600, "observed.regroup.pairs_with_different_language": 300,
+            "observed.regroup.combined_expressions": 2000, "observed.regroup.token_sets": 600,
+            "observed.regroup.postfix_scope_pairs": 200, "observed.regroup.binary_regrouping_pairs": 200,
             "observed.random.expressions": 6000, "observed.random.with_escaped_metachar": 3000,
             "observed.random.with_redundant_group": 1500,
             "observed.oracle.re_and_glushkov_agree": 3000,
@@ -627,6 +635,100 @@ def run_random(mon, eng, spec):
             mon.inconclusive.append("oracle self-check: re and Glushkov disagree on %r for %r" % (orc.disagree, orc.pattern))
 
 
+# regrouping pairs -----------------------------------------------------------------------
+
+RG_LEAVES = [["lit", "a"], ["lit", "b"], ["lit", "c"], ["lit", "a"], ["lit", "b"], ["dot"], ["cls", ["a", "b"]],
+             ["cls", [["b", "c"]]], ["lit", "."]]
+
+
+def flat_sequence(r):
+    """leaves, binary operators between neighbours, an optional postfix operator after each leaf"""
+    while True:
+        k = r.choice([2, 2, 2, 3, 3, 4])
+        leaves = [r.choice(RG_LEAVES) for _ in range(k)]
+        ops = [r.choice(["cat", "cat", "alt"]) for _ in range(k - 1)]
+        post = [r.choice([None, None, "star", "star", "plus", "opt"]) for _ in range(k)]
+        if any(post[1:]) or len(set(ops)) > 1 or k > 2:
+            return leaves, ops, post
+
+
+def grouping(r, leaves, ops, post):
+    """one way to put parentheses into the flat sequence: any binary operator may be the root of a
+    span, and the postfix operator written after the last leaf of a span may apply to the leaf, to
+    the whole span or to anything in between"""
+
+    def build(i, j, apply_last):
+        p = post[j] if apply_last else None
+        if i == j:
+            return [p, leaves[i]] if p else leaves[i]
+        if p and r.random() < 0.5:
+            return [p, build(i, j, False)]
+        s = r.randrange(i, j)
+        return [ops[s], build(i, s, True), build(s + 1, j, apply_last)]
+
+    return build(0, len(leaves) - 1, True)
+
+
+def kinds_of_difference(v1, v2):
+    """coarse tag: do the variants differ in the scope of a postfix operator or only in binary grouping"""
+    def shape(t):
+        if t[0] in rxref.UN:
+            return (t[0], rxref.size(t[1]))
+        return None
+
+    def posts(t, acc):
+        if t[0] in rxref.UN:
+            acc.append(shape(t))
+            posts(t[1], acc)
+        elif t[0] in ("cat", "alt"):
+            posts(t[1], acc)
+            posts(t[2], acc)
+        return acc
+
+    return "postfix_scope_pairs" if sorted(posts(v1, [])) != sorted(posts(v2, [])) else "binary_regrouping_pairs"
+
+
+def run_regroup(mon, eng, spec):
+    strs = string_space()
+    for i in range(spec["n"]):
+        r = rng(spec["seed"], PROPERTY, "regroup/%d/%d" % (spec["shard"], i))
+        v1 = v2 = None
+        for _ in range(30):
+            leaves, ops, post = flat_sequence(r)
+            v1 = grouping(r, leaves, ops, post)
+            for _ in range(10):
+                v2 = grouping(r, leaves, ops, post)
+                if v2 != v1:
+                    break
+            if v2 != v1:
+                break
+        if v1 == v2:
+            mon.discard("regroup:no-second-grouping")
+            continue
+        mon.bump("regroup", "pairs")
+        mon.bump("regroup", kinds_of_difference(v1, v2))
+        g1, g2 = rxref.Glushkov(v1), rxref.Glushkov(v2)
+        if any(g1.accepts(x) != g2.accepts(x) for x in strs if len(x) <= 4):
+            mon.bump("regroup", "pairs_with_different_language")
+        e, f = r.choice(RG_LEAVES), r.choice(RG_LEAVES)
+        both, both_r = ["alt", v1, v2], ["alt", v2, v1]
+        combos = [both, both_r, ["cat", e, both], ["cat", both_r, e], ["star", both], ["plus", both_r],
+                  ["cat", ["alt", ["alt", e, v1], v2], f], ["alt", ["alt", v2, e], v1], ["cat", v1, v2],
+                  ["cat", ["opt", v2], v1], ["alt", ["cat", v1, e], ["cat", v2, f]], ["opt", ["cat", both, both_r]],
+                  ["star", ["cat", e, both_r]], ["alt", ["star", v1], ["plus", v2]]]
+        for t in [both, both_r] + r.sample(combos[2:], 3):
+            mon.bump("regroup", "combined_expressions")
+            check_single(mon, eng, t, strs, lambda orc: table_for(orc, strs), None, ("direct", "parse"), BUDGET_RANDOM, None)
+        texts = r.sample([x for x in strs if len(x) <= 6], 200) + [""]
+        for asts in ([v1, v2], [v2, v1, e]):
+            mon.bump("regroup", "token_sets")
+            check_tokens(mon, eng, asts, ["t%d" % j for j in range(len(asts))], texts, ("direct", "parse"))
+        if len(mon.samples) < 2 and i % 7 == 3:
+            mon.samples.append({"flat_sequence": [rxref.render(x) for x in leaves], "operators": ops, "postfix": post,
+                                "variant_1": rxref.render(v1), "variant_2": rxref.render(v2),
+                                "combined": [rxref.render(both), rxref.render(combos[2]), rxref.render(combos[4])]})
+
+
 # token-set scanners -----------------------------------------------------------------
 
 def run_tokens(mon, eng, spec):
@@ -767,6 +869,8 @@ def run_shard(spec):
         run_random(mon, eng, spec)
     elif part == "tokens":
         run_tokens(mon, eng, spec)
+    elif part == "regroup":
+        run_regroup(mon, eng, spec)
     elif part == "case":
         run_case(mon, eng, spec)
     return mon.result()
